@@ -26,6 +26,14 @@ func EqualUnsigned(a, b interfaces.Transaction) (bool, string) {
 
 var tTx = reflect.TypeOf((*interfaces.Transaction)(nil)).Elem()
 
+// diffAt: a difference at the root has an empty path, which must not read as "equal".
+func diffAt(path string) string {
+	if path == "" {
+		return "(value)"
+	}
+	return path
+}
+
 func isCache(name string) bool { return name == "hash" || name == "txHash" }
 
 func txEq(a, b interfaces.Transaction, path string, programs bool) string {
@@ -101,23 +109,23 @@ func eq(a, b reflect.Value, path string, top bool) string {
 	switch a.Kind() {
 	case reflect.Bool:
 		if a.Bool() != b.Bool() {
-			return path
+			return diffAt(path)
 		}
 	case reflect.Int, reflect.Int8, reflect.Int16, reflect.Int32, reflect.Int64:
 		if a.Int() != b.Int() {
-			return path
+			return diffAt(path)
 		}
 	case reflect.Uint, reflect.Uint8, reflect.Uint16, reflect.Uint32, reflect.Uint64, reflect.Uintptr:
 		if a.Uint() != b.Uint() {
-			return path
+			return diffAt(path)
 		}
 	case reflect.Float32, reflect.Float64:
 		if a.Float() != b.Float() {
-			return path
+			return diffAt(path)
 		}
 	case reflect.String:
 		if a.String() != b.String() {
-			return path
+			return diffAt(path)
 		}
 	case reflect.Slice:
 		if a.Len() != b.Len() { // nil ≡ empty
